@@ -172,7 +172,10 @@ pub fn main_clip(args: &[String]) -> i32 {
         }
     }
     // ---------------- Part B
-    let inputs = float_inputs(seed ^ 0xC18B, fcount, 40, &[3, 3, 2]);
+    let mut inputs = float_inputs(seed ^ 0xC18B, fcount, 40, &[3, 3, 2]);
+    // cells that undergo more than 256 successful clips (all of them remaining faces): 2D polygon and 3D prism
+    inputs.push(crate::tess::refine_input(inputs.len(), 2, 300, seed));
+    inputs.push(crate::tess::refine_input(inputs.len(), 3, 280, seed ^ 1));
     let mut b_cells = 0usize;
     let mut b_variants = 0usize;
     let mut b_max_planes = 0usize;
